@@ -152,8 +152,9 @@ fn oracle(c: &Case, st: &mut Stats) -> Result<(), String> {
       if let Some(off) = find_sub(&b, a) {
         return Err(format!("associated data appears in the clear at offset {off} of the encoded report: aux {} report {}", hex::encode(a), hex::encode(&b)));
       }
-      // also any 16-byte slice of it
-      for w in a.chunks(16).filter(|w| w.len() == 16 && scan_eligible(w)).take(8) {
+      // also any 16-byte slice of it (every 4th offset, and the very last 16 bytes)
+      let last = a.len() - 16;
+      for w in (0..=last).step_by(4).chain(std::iter::once(last)).map(|o| &a[o..o + 16]).filter(|w| scan_eligible(w)) {
         if let Some(off) = find_sub(&b, w) {
           return Err(format!("16 bytes of the associated data appear in the clear at offset {off} of the encoded report {}", hex::encode(&b)));
         }
